@@ -1,0 +1,72 @@
+//! Verification hooks, compiled only with `--cfg rsbdd_verif`.
+//!
+//! A thread-local counter of "ticks" (one per `mk_choice` call and one per
+//! `fp` iteration) with an optional budget. Unarmed, `tick()` only counts.
+//! Armed in-process via `set_budget`, exhausting the budget unwinds with a
+//! `BudgetExhausted` payload. Armed in a child process via the environment
+//! variable `RSBDD_VERIF_BUDGET`, exhausting it exits with status 97.
+
+use std::cell::Cell;
+
+/// Panic payload used when an in-process budget is exhausted.
+#[derive(Debug, Clone, Copy, PartialEq, Eq)]
+pub struct BudgetExhausted;
+
+/// Exit status used when a budget armed through the environment is exhausted.
+pub const BUDGET_EXIT_STATUS: i32 = 97;
+
+thread_local! {
+    static TICKS: Cell<u64> = const { Cell::new(0) };
+    static BUDGET: Cell<Option<u64>> = const { Cell::new(None) };
+    static ENV_BUDGET: Cell<Option<Option<u64>>> = const { Cell::new(None) };
+}
+
+/// Number of ticks counted on this thread since the last `reset`.
+pub fn ticks() -> u64 {
+    TICKS.with(Cell::get)
+}
+
+/// Reset the tick counter of this thread to zero.
+pub fn reset() {
+    TICKS.with(|t| t.set(0));
+}
+
+/// Arm (`Some(n)`: unwind once more than `n` ticks were counted) or disarm (`None`) the in-process budget.
+pub fn set_budget(budget: Option<u64>) {
+    BUDGET.with(|b| b.set(budget));
+}
+
+fn env_budget() -> Option<u64> {
+    ENV_BUDGET.with(|e| {
+        if let Some(cached) = e.get() {
+            cached
+        } else {
+            let parsed = std::env::var("RSBDD_VERIF_BUDGET")
+                .ok()
+                .and_then(|s| s.parse::<u64>().ok());
+            e.set(Some(parsed));
+            parsed
+        }
+    })
+}
+
+/// Count one unit of work; enforce whichever budget is armed.
+pub fn tick() {
+    let now = TICKS.with(|t| {
+        let n = t.get().wrapping_add(1);
+        t.set(n);
+        n
+    });
+
+    if let Some(limit) = BUDGET.with(Cell::get) {
+        if now > limit {
+            // disarm first so that unwinding code cannot trip it again
+            BUDGET.with(|b| b.set(None));
+            std::panic::panic_any(BudgetExhausted);
+        }
+    } else if let Some(limit) = env_budget() {
+        if now > limit {
+            std::process::exit(BUDGET_EXIT_STATUS);
+        }
+    }
+}
